@@ -306,8 +306,15 @@ impl sam::alignment::Record for Record {
     }
 
     fn data_ref(&self) -> sam::alignment::record::DataRef<'_> {
-        let src = self.data().as_bytes();
-        sam::alignment::record::DataRef::FieldEncoded(src)
+        let data = self.data();
+
+        // The raw data block includes the `CG` field, which is not a data field when it holds the
+        // CIGAR operations.
+        if data.has_overflowing_cigar() {
+            sam::alignment::record::DataRef::Data(Box::new(data))
+        } else {
+            sam::alignment::record::DataRef::FieldEncoded(data.as_bytes())
+        }
     }
 }
 
@@ -442,6 +449,11 @@ mod tests {
 
         let actual = RecordBuf::try_from_alignment_record(&header, &record)?;
         assert_eq!(actual, record_buf);
+
+        // It is written once.
+        let mut buf = Vec::new();
+        encode(&mut buf, &header, &record)?;
+        assert_eq!(buf, record.0);
 
         Ok(())
     }
